@@ -29,7 +29,9 @@ HARN = os.path.join(ROOT, "harness")
 CACHE = os.path.join(ROOT, ".cache")
 EVID = os.path.join(ROOT, "evidence")
 REPLAY = os.path.join(EVID, "replay")
-REPO = "/repo"
+# the crate under check: /repo, unless a development sweep (seedall.py under `vp run --with-repo`)
+# points at a scratch copy; registered checks never set VERIF_REPO
+REPO = os.environ.get("VERIF_REPO", "/repo")
 DRIVER = os.path.join(LEAN, ".lake", "build", "bin", "driver")
 NPROC = max(1, min(16, os.cpu_count() or 1))
 ALLOWED_AXIOMS = {"propext", "Classical.choice", "Quot.sound"}
@@ -126,13 +128,28 @@ def harness_bin(profile):
     return os.path.join(CACHE, "target", "release" if profile == "release" else "debug", "harness")
 
 
+def harness_dir():
+    """harness/ itself for /repo; for a scratch copy of the crate, a copy of harness/ whose path
+    dependency points there"""
+    if REPO == "/repo":
+        return HARN
+    d = os.path.join(CACHE, "harness-alt")
+    if os.path.exists(d):
+        shutil.rmtree(d)
+    shutil.copytree(HARN, d, ignore=shutil.ignore_patterns("target"))
+    m = os.path.join(d, "Cargo.toml")
+    open(m, "w").write(open(m).read().replace('path = "/repo"', 'path = "%s"' % REPO))
+    return d
+
+
 def build_harness(profile):
-    if not os.path.exists(os.path.join(HARN, "Cargo.lock")):
-        shutil.copy(os.path.join(REPO, "Cargo.lock"), os.path.join(HARN, "Cargo.lock"))
+    hd = harness_dir()
+    if not os.path.exists(os.path.join(hd, "Cargo.lock")):
+        shutil.copy(os.path.join(REPO, "Cargo.lock"), os.path.join(hd, "Cargo.lock"))
     cmd = ["cargo", "build", "--offline"] + (["--release"] if profile == "release" else [])
     env = {"CARGO_TARGET_DIR": os.path.join(CACHE, "target"),
            "RUSTFLAGS": "--cfg rust_vmm_acpi_tables_verif --check-cfg cfg(rust_vmm_acpi_tables_verif) -Awarnings"}
-    rc, out = sh(cmd, cwd=HARN, env=env, timeout=1800)
+    rc, out = sh(cmd, cwd=hd, env=env, timeout=1800)
     if rc != 0:
         raise Violation("the harness no longer builds against /repo (changed public API or compile error): "
                         "the model<->code correspondence cannot be established",
